@@ -71,8 +71,9 @@ fn write_rspfile(rspfile: &RspFile) -> anyhow::Result<()> {
 fn extract_showincludes(output: Vec<u8>) -> (Vec<String>, Vec<u8>) {
     let mut filtered_output = Vec::new();
     let mut includes = Vec::new();
-    for line in output.split(|&c| c == b'\n') {
+    for line in output.split_inclusive(|&c| c == b'\n') {
         if let Some(include) = line.strip_prefix(b"Note: including file: ") {
+            let include = include.strip_suffix(b"\n").unwrap_or(include);
             let start = include.iter().position(|&c| c != b' ').unwrap_or(0);
             let end = if include.ends_with(&[b'\r']) {
                 include.len() - 1
@@ -82,9 +83,6 @@ fn extract_showincludes(output: Vec<u8>) -> (Vec<String>, Vec<u8>) {
             let include = &include[start..end];
             includes.push(unsafe { String::from_utf8_unchecked(include.to_vec()) });
         } else {
-            if !filtered_output.is_empty() {
-                filtered_output.push(b'\n');
-            }
             filtered_output.extend_from_slice(line);
         }
     }
